@@ -26,7 +26,13 @@ pub(super) fn str_to_decimal(v: &str) -> Result<rust_decimal::Decimal, rust_deci
 					} else {
 						1 + fractional_part.len()
 					};
-				rust_decimal::Decimal::from_str_exact(&v[..end]).map_err(|_| e)
+				match &v[..end] {
+					// There was nothing but zeroes
+					"" | "+" | "-" => Ok(rust_decimal::Decimal::ZERO),
+					without_trailing_zeroes => {
+						rust_decimal::Decimal::from_str_exact(without_trailing_zeroes).map_err(|_| e)
+					}
+				}
 			}
 			_ => Err(e),
 		}
